@@ -239,6 +239,9 @@ theorem Pre_usingBody (σ0 : State) (n : ClassId) (hn : σ0.classes.length ≤ n
       case labels ls =>
         exact Pre_usingBody σ0 n hn rest _ σ2
           (Pre_setOwn σ0 _ (hp.trans (Pre_alloc σ1 _)) n hn a _) h
+      case members ms =>
+        exact Pre_usingBody σ0 n hn rest _ σ2
+          (Pre_setOwn σ0 _ (hp.trans (Pre_alloc σ1 _)) n hn a _) h
       all_goals exact Pre_usingBody σ0 n hn rest _ σ2 (Pre_setOwn σ0 σ1 hp n hn a _) h
     · simp at h
 
@@ -439,6 +442,257 @@ theorem instance_local (σ : State) (c : ClassId) (kw : List (KwName × KwVal))
       · split <;> rfl
   · rfl
 
+/-! ## the regeneration rule of `DateYYYYMMDD.__compound_init__`: history independence -/
+
+theorem userFields_idem (xs : List Item) : userFields (userFields xs) = userFields xs := by
+  simp [userFields, List.filter_filter]
+
+theorem userFields_drop_defaults (o : Bool) (n : Nat) :
+    userFields ((generatedDefaults o).drop n) = [] := by
+  rcases n with _ | _ | _ | _ | n <;> simp [generatedDefaults, userFields]
+
+/-- generated members are dropped wherever they sit, user-supplied ones are kept: the
+    user-supplied part of a prepared member list is the user-supplied part it was built from -/
+theorem userFields_preparedFields (xs : List Item) (o : Bool) :
+    userFields (preparedFields (userFields xs) o) = userFields xs := by
+  unfold preparedFields
+  have : ∀ a b : List Item, userFields (a ++ b) = userFields a ++ userFields b := by
+    intro a b; simp [userFields]
+  rw [this, userFields_idem, userFields_drop_defaults, List.append_nil]
+
+/-- the member list class `c` gets when it is prepared: a function of its user-supplied
+    members and its own `optional` only -/
+def preparedOf (σ : State) (c : ClassId) : List Item :=
+  preparedFields (userFields (seqOf σ c .fieldSchema)) (optionalOf σ c)
+
+theorem classes_updCls (σ : State) (c x : ClassId) (f : Cls → Cls) :
+    (updCls σ c f).classes[x]? = if x = c then (σ.classes[x]?).map f else σ.classes[x]? := by
+  unfold updCls
+  by_cases e : x = c
+  · subst e
+    cases h : σ.classes[x]? with
+    | none => simp [h]
+    | some cl =>
+      have hlt : x < σ.classes.length := by
+        rcases Nat.lt_or_ge x σ.classes.length with h' | h'
+        · exact h'
+        · simp [List.getElem?_eq_none h'] at h
+      simp [List.getElem?_set_self hlt]
+  · simp only [e, if_false]
+    cases h : σ.classes[c]? with
+    | none => rfl
+    | some cl => simp [List.getElem?_set_ne (Ne.symm e)]
+
+theorem assoc_assocSet {α β : Type} [DecidableEq α] (l : List (α × β)) (a a' : α) (b : β) :
+    assoc (assocSet l a b) a' = if a = a' then some b else assoc l a' := by
+  induction l with
+  | nil => simp [assocSet, assoc]
+  | cons p r ih =>
+    obtain ⟨a0, b0⟩ := p
+    simp only [assocSet]
+    split <;> simp only [assoc] <;> grind
+
+/-- what preparing class `p` does to the store: nothing, or only the flag, or — when members
+    have to be generated — a fresh list `F` bound to `p.field_schema` -/
+structure PreparedFrom (σ τ : State) (p : ClassId) : Prop where
+  mro : ∀ x, τ.mroOf x = σ.mroOf x
+  own_ne : ∀ x, x ≠ p → τ.ownOf x = σ.ownOf x
+  own_p : (((seqOf σ p .fieldSchema).length ≥ 4 ∨ (userFields (seqOf σ p .fieldSchema)).length = 3) ∧
+      τ.ownOf p = σ.ownOf p) ∨
+    (∃ r, (∀ a, assoc (τ.ownOf p) a = if Attr.fieldSchema = a then some (.list r) else assoc (σ.ownOf p) a) ∧
+      τ.items r = preparedOf σ p)
+  heap : ∀ r, r < σ.heap.length → τ.items r = σ.items r
+
+theorem mroOf_updCls (σ : State) (c x : ClassId) (f : Cls → Cls) (hf : ∀ cl, (f cl).mro = cl.mro) :
+    (updCls σ c f).mroOf x = σ.mroOf x := by
+  simp only [State.mroOf, classes_updCls]
+  by_cases e : x = c
+  · simp only [e, if_true]; cases σ.classes[c]? <;> simp [hf]
+  · simp [e]
+
+theorem ownOf_updCls_ne (σ : State) (c x : ClassId) (f : Cls → Cls) (h : x ≠ c) :
+    (updCls σ c f).ownOf x = σ.ownOf x := by
+  simp [State.ownOf, classes_updCls, h]
+
+theorem ownOf_updCls_self (σ : State) (c : ClassId) (f : Cls → Cls) (cl : Cls) (h : σ.classes[c]? = some cl) :
+    (updCls σ c f).ownOf c = (f cl).own := by
+  simp [State.ownOf, classes_updCls, h]
+
+theorem mroOf_setOwn (σ : State) (c x : ClassId) (a : Attr) (v : Val) :
+    (setOwn σ c a v).mroOf x = σ.mroOf x :=
+  mroOf_updCls σ c x (fun cl => { cl with own := assocSet cl.own a v }) (fun _ => rfl)
+
+theorem ownOf_setOwn_ne (σ : State) (c x : ClassId) (a : Attr) (v : Val) (h : x ≠ c) :
+    (setOwn σ c a v).ownOf x = σ.ownOf x := ownOf_updCls_ne σ c x _ h
+
+def setPrepared (cl : Cls) : Cls := { cl with prepared := true }
+
+theorem compoundInit_fst (σ : State) (p : ClassId) :
+    (compoundInit σ p).1 =
+      if (seqOf σ p .fieldSchema).length ≥ 4 then σ
+      else if (userFields (seqOf σ p .fieldSchema)).length = 3 then updCls σ p setPrepared
+      else updCls (setOwn { σ with heap := σ.heap ++ [preparedOf σ p] } p .fieldSchema (.list σ.heap.length))
+        p setPrepared := by
+  unfold compoundInit
+  simp only []
+  split
+  · rfl
+  · split <;> rfl
+
+theorem heap_updCls (σ : State) (c : ClassId) (f : Cls → Cls) : (updCls σ c f).heap = σ.heap := by
+  unfold updCls; split <;> rfl
+
+theorem compoundInit_preparedFrom (σ : State) (p : ClassId) (hp : p < σ.classes.length) :
+    PreparedFrom σ (compoundInit σ p).1 p := by
+  obtain ⟨cl, hcl⟩ : ∃ cl, σ.classes[p]? = some cl := ⟨σ.classes[p], by simp [hp]⟩
+  rw [compoundInit_fst]
+  split
+  · rename_i h4
+    exact ⟨fun _ => rfl, fun _ _ => rfl, Or.inl ⟨Or.inl h4, rfl⟩, fun _ _ => rfl⟩
+  · split
+    · rename_i h3
+      refine ⟨fun x => mroOf_updCls σ p x setPrepared (fun _ => rfl), fun x hx => ownOf_updCls_ne σ p x _ hx,
+        Or.inl ⟨Or.inr h3, ?_⟩, fun r _ => by simp [State.items, heap_updCls]⟩
+      rw [ownOf_updCls_self σ p _ cl hcl]; simp [State.ownOf, hcl, setPrepared]
+    · -- members are generated: a fresh list, bound to p.field_schema, and the flag
+      obtain ⟨σ1, hσ1⟩ : ∃ σ1 : State, σ1 = { σ with heap := σ.heap ++ [preparedOf σ p] } := ⟨_, rfl⟩
+      rw [← hσ1]
+      have hcl1 : σ1.classes[p]? = some cl := by rw [hσ1]; exact hcl
+      have hm1 : ∀ x, σ1.mroOf x = σ.mroOf x := fun x => by rw [hσ1]; rfl
+      have ho1 : ∀ x, σ1.ownOf x = σ.ownOf x := fun x => by rw [hσ1]; rfl
+      have h2 : (setOwn σ1 p .fieldSchema (.list σ.heap.length)).classes[p]?
+          = some { cl with own := assocSet cl.own .fieldSchema (.list σ.heap.length) } := by
+        unfold setOwn; rw [classes_updCls]; simp [hcl1]
+      have hheap : (updCls (setOwn σ1 p .fieldSchema (.list σ.heap.length)) p setPrepared).heap
+          = σ.heap ++ [preparedOf σ p] := by
+        rw [heap_updCls]; unfold setOwn; rw [heap_updCls, hσ1]
+      refine ⟨fun x => ?_, fun x hx => ?_, Or.inr ⟨σ.heap.length, fun a => ?_, ?_⟩, fun r hr => ?_⟩
+      · rw [mroOf_updCls _ p x setPrepared (fun _ => rfl), mroOf_setOwn, hm1]
+      · rw [ownOf_updCls_ne _ p x _ hx, ownOf_setOwn_ne _ _ _ _ _ hx, ho1]
+      · rw [ownOf_updCls_self _ p _ _ h2]
+        simp only [setPrepared, assoc_assocSet]
+        simp [State.ownOf, hcl]
+      · simp [State.items, hheap]
+      · simp only [State.items, hheap, List.getElem?_append_left hr]
+
+theorem own_attr_preparedFrom {σ τ : State} {p : ClassId} (h : PreparedFrom σ τ p) (x : ClassId) (a : Attr)
+    (hxa : x ≠ p ∨ a ≠ .fieldSchema) : assoc (τ.ownOf x) a = assoc (σ.ownOf x) a := by
+  by_cases e : x = p
+  · subst e
+    rcases h.own_p with ⟨_, h1⟩ | ⟨r, h1, _⟩
+    · rw [h1]
+    · rw [h1 a, if_neg]
+      rcases hxa with hx | ha
+      · exact absurd rfl hx
+      · exact fun e => ha e.symm
+  · rw [h.own_ne x e]
+
+/-- preparing `p` changes no attribute other than `field_schema`, of any class -/
+theorem lookup_ne_preparedFrom {σ τ : State} {p : ClassId} (h : PreparedFrom σ τ p) (c : ClassId) (a : Attr)
+    (ha : a ≠ .fieldSchema) : τ.lookup c a = σ.lookup c a := by
+  unfold State.lookup
+  rw [h.mro c]
+  exact findSome?_ext' _ _ _ (fun x _ => own_attr_preparedFrom h x a (Or.inr ha))
+
+theorem seqOf_of_lookup_eq {σ τ : State} (hwf : WF σ) (hheap : ∀ r, r < σ.heap.length → τ.items r = σ.items r)
+    (c : ClassId) (a : Attr) (hl : τ.lookup c a = σ.lookup c a) : seqOf τ c a = seqOf σ c a := by
+  unfold seqOf
+  rw [hl]
+  cases hv : σ.lookup c a with
+  | none => rfl
+  | some v =>
+    obtain ⟨x, _, hx⟩ := List.exists_of_findSome?_eq_some hv
+    cases v <;> simp only []
+    case list r => exact hheap r (hwf.ref_lt x a r (Or.inl hx))
+    case tuple r => exact hheap r (hwf.ref_lt x a r (Or.inr (Or.inl hx)))
+
+theorem findSome?_append' {α β : Type} (f : α → Option β) (a b : List α) :
+    (a ++ b).findSome? f = (a.findSome? f).or (b.findSome? f) := by
+  induction a with
+  | nil => simp
+  | cons x r ih => simp only [List.cons_append, List.findSome?_cons]; cases f x <;> simp [ih]
+
+/-- the user-supplied members a class sees are the same before and after an ancestor (or the
+    class itself) was prepared -/
+theorem userFields_preparedFrom {σ τ : State} {p : ClassId} (h : PreparedFrom σ τ p) (hwf : WF σ)
+    (c : ClassId) (pre tl : List ClassId) (hm : σ.mroOf c = pre ++ σ.mroOf p) (hp : σ.mroOf p = p :: tl)
+    (hpre : p ∉ pre) :
+    userFields (seqOf τ c .fieldSchema) = userFields (seqOf σ c .fieldSchema) := by
+  rcases h.own_p with ⟨_, h1⟩ | ⟨r, h1, hitems⟩
+  · -- nothing was bound: every lookup is unchanged
+    have : τ.lookup c .fieldSchema = σ.lookup c .fieldSchema := by
+      unfold State.lookup
+      rw [h.mro c]
+      refine findSome?_ext' _ _ _ (fun x _ => ?_)
+      by_cases e : x = p
+      · rw [e, h1]
+      · rw [h.own_ne x e]
+    rw [seqOf_of_lookup_eq hwf h.heap c _ this]
+  · have hpreown : ∀ x ∈ pre, assoc (τ.ownOf x) Attr.fieldSchema = assoc (σ.ownOf x) Attr.fieldSchema :=
+      fun x hx => by rw [h.own_ne x (fun e => hpre (e ▸ hx))]
+    have hτ : τ.lookup c .fieldSchema
+        = (pre.findSome? (fun x => assoc (σ.ownOf x) Attr.fieldSchema)).or (some (.list r)) := by
+      unfold State.lookup
+      rw [h.mro c, hm, hp, findSome?_append', findSome?_ext' _ _ pre hpreown]
+      simp [List.findSome?_cons, h1]
+    have hσ : σ.lookup c .fieldSchema
+        = (pre.findSome? (fun x => assoc (σ.ownOf x) Attr.fieldSchema)).or (σ.lookup p .fieldSchema) := by
+      unfold State.lookup
+      rw [hm, findSome?_append']
+    cases hfound : pre.findSome? (fun x => assoc (σ.ownOf x) Attr.fieldSchema) with
+    | some v =>
+      have : τ.lookup c .fieldSchema = σ.lookup c .fieldSchema := by rw [hτ, hσ, hfound]; rfl
+      rw [seqOf_of_lookup_eq hwf h.heap c _ this]
+    | none =>
+      have h1' : seqOf τ c .fieldSchema = preparedOf σ p := by
+        unfold seqOf; rw [hτ, hfound]; simp [hitems]
+      have h2' : seqOf σ c .fieldSchema = seqOf σ p .fieldSchema := by
+        unfold seqOf; rw [hσ, hfound]; rfl
+      rw [h1', h2', preparedOf, userFields_preparedFields]
+
+/-- **Regeneration rule / history independence of compound members.**  Let class `c` inherit
+    from compound class `p` (or be `p` itself).  The member list `c` gets when it is prepared —
+    its user-supplied members, kept wherever they sit, followed by year/month/day generated
+    from `c`'s own `optional` for the positions left open — is the same whether or not `p` was
+    prepared (instantiated) before. -/
+theorem compound_fields_history_independent (σ : State) (hwf : WF σ) (p c : ClassId)
+    (hp : p < σ.classes.length) (pre tl : List ClassId) (hm : σ.mroOf c = pre ++ σ.mroOf p)
+    (hmp : σ.mroOf p = p :: tl) (hpre : p ∉ pre) :
+    preparedOf (compoundInit σ p).1 c = preparedOf σ c := by
+  have h := compoundInit_preparedFrom σ p hp
+  unfold preparedOf optionalOf
+  rw [userFields_preparedFrom h hwf c pre tl hm hmp hpre,
+    lookup_ne_preparedFrom h c .optional (by decide)]
+
+/-- what `compoundInit` binds to `field_schema` is `preparedOf` (so the theorem above is about
+    the list the class really gets), whenever members have to be generated -/
+theorem compoundInit_stores (σ : State) (c : ClassId) (hc : c < σ.classes.length) (tl : List ClassId)
+    (hm : σ.mroOf c = c :: tl)
+    (h4 : (seqOf σ c .fieldSchema).length < 4) (h3 : (userFields (seqOf σ c .fieldSchema)).length ≠ 3) :
+    seqOf (compoundInit σ c).1 c .fieldSchema = preparedOf σ c := by
+  have h := compoundInit_preparedFrom σ c hc
+  rcases h.own_p with ⟨h', _⟩ | ⟨r, h1, hitems⟩
+  · rcases h' with h' | h'
+    · exact absurd h4 (Nat.not_lt.2 h')
+    · exact absurd h' h3
+  · unfold seqOf State.lookup
+    rw [h.mro c, hm]
+    simp [List.findSome?_cons, h1, hitems]
+
+/-- with three user-supplied members nothing is generated and the list is kept as it is -/
+theorem preparedOf_three (σ : State) (c : ClassId) (h4 : (seqOf σ c .fieldSchema).length < 4)
+    (h3 : (userFields (seqOf σ c .fieldSchema)).length = 3) :
+    preparedOf σ c = seqOf σ c .fieldSchema := by
+  have hle : (userFields (seqOf σ c .fieldSchema)).length ≤ (seqOf σ c .fieldSchema).length :=
+    List.length_filter_le _ _
+  have hlen : (seqOf σ c .fieldSchema).length = 3 := by omega
+  have heq : userFields (seqOf σ c .fieldSchema) = seqOf σ c .fieldSchema := by
+    unfold userFields at h3 ⊢
+    exact List.filter_eq_self.2 (List.length_filter_eq_length_iff.1 (by rw [h3, hlen]))
+  unfold preparedOf preparedFields
+  rw [heq, hlen]
+  simp [generatedDefaults]
+
 /-! ## well-formedness is decidable; the runner checks it after every step of every history -/
 
 theorem mem_of_assoc {α β : Type} [DecidableEq α] (l : List (α × β)) (a : α) (b : β)
@@ -509,5 +763,25 @@ example : deepLookup (step exState (.includingValidators false 2 [9] (some 0))).
 example : deepLookup exState 6 .fieldSchema
     = .list [.gen "year".toList "%04i".toList true, .gen "month".toList "%02i".toList true,
              .gen "day".toList "%02i".toList true] := by decide
+
+/-- non-vacuity of `compound_fields_history_independent`: class 1 is a date with one
+    user-supplied (optional) member `y`, class 2 = class 1.using(optional=True) derived from it;
+    the store is well formed and class 1 is not yet prepared -/
+def partialSteps : List Step :=
+  [.using 0 [(.attr .fieldSchema, .members [(['y'], true)])], .using 1 [(.attr .optional, .bool true)]]
+
+def partialState : State := (run (initState .compound []) partialSteps).1
+
+example : preparedOf (compoundInit partialState 1).1 2 = preparedOf partialState 2 :=
+  compound_fields_history_independent partialState (WF_of_wfB _ (by decide)) 1 2 (by decide) [2] [0]
+    (by decide) (by decide) (by decide)
+/-- and the list in question is the regenerated one: `y` kept, month/day optional like class 2 -/
+example : preparedOf (compoundInit partialState 1).1 2
+    = [.user ['y'] true, .gen "month".toList "%02i".toList true, .gen "day".toList "%02i".toList true] := by
+  decide
+/-- while the prepared parent holds non-optional month/day — the members the derived class must not keep -/
+example : seqOf (compoundInit partialState 1).1 1 .fieldSchema
+    = [.user ['y'] true, .gen "month".toList "%02i".toList false, .gen "day".toList "%02i".toList false] := by
+  decide
 
 end Flatland.C06.Proofs
